@@ -23,7 +23,7 @@ RULE = ("one case = one packet with its decode argument counts; non-trivial = "
         "least one header field differs from zero; distinct by case")
 ASSUMPTIONS = ["arguments are present as a prefix (arg1..argk); field values "
                "lie within their documented widths"]
-FLOORS = {"encode_compare": 1000, "decode_compare": 3000,
+FLOORS = {"second_decode": 500, "edited_packet_encoded": 5000, "encode_compare": 1000, "decode_compare": 3000,
           "short_decode": 300}
 SHARDS = {"quick": 16, "thorough": 48}
 
